@@ -29,8 +29,23 @@ Definition spec_ok (op v : N) (o : obj) (impl : sx) : bool :=
   else if well_typed v o then expect (spec_reference_hash sha256 v o)
   else match impl with SL [SN 1; _] => true | _ => false end.
 
+Definition run_b64 (url : bool) (t : str) (impl : sx) : sx :=
+  let m := match b64_decode url t with Some b => SL [SN 0; SS b] | None => SL [SN 1; SN 0] end in
+  (* spec: whatever is accepted re-encodes (unpadded) to the input without its padding, up to
+     the trailing bits the configuration tolerates: checked as decode (encode b) = b *)
+  let ok := match impl with
+            | SL [SN 0; SS b] => match b64_decode url (b64_encode url b) with
+                                 | Some b' => str_eqb b b'
+                                 | None => false
+                                 end
+            | _ => true
+            end in
+  SL [m; sx_bool ok].
+
 Definition run (x : sx) : sx :=
   match x with
+  | SL [SL [SN 3; _; SS t]; impl] => run_b64 false t impl
+  | SL [SL [SN 4; _; SS t]; impl] => run_b64 true t impl
   | SL [SL [op; v; o]; impl] =>
       match as_N op, as_N v, obj_of_sx o with
       | Some op, Some v, Some o => SL [sx_res (model_out op v o); sx_bool (spec_ok op v o impl)]
